@@ -151,7 +151,9 @@ def conc_part(ck):
             j = j or "; ".join(rec["X"])
         if j:
             bad.append((line, j, rec["K"]))
-        if not (rec["V"] or "").startswith("accepted"):
+        if rec.get("U"):
+            rej.append((line, "shared objects do not match Model/Conc.v: " + "; ".join(rec["U"])[:300], rec["K"]))
+        elif not (rec["V"] or "").startswith("accepted"):
             rej.append((line, rec["V"], rec["K"]))
         elif rec["Q"] and rec["Q"] != "aborted" and conc.kv(rec["V"])["st"] != conc.kv(rec["Q"])["st"]:
             rej.append((line, "final statistics: implementation %s, model %s" % (conc.kv(rec["Q"])["st"], conc.kv(rec["V"])["st"]), rec["K"]))
